@@ -24,6 +24,15 @@ from .simfile import SimFile
 from .valgen import Gen, class_info, short
 
 SD = betterproto.SIZE_DELIMITED
+FOREIGN_UNKNOWN = [
+    wire.f_group(4000, wire.f_varint(1, 7) + wire.f_len(2, b"in-group")),
+    wire.f_group(5000, wire.f_group(5001, wire.f_i32(3, b"abcd"))),
+    wire.f_i32(4001, b"\x01\x02\x03\x04"),
+    wire.f_i64(4002, b"\x01\x02\x03\x04\x05\x06\x07\x08"),
+    wire.f_varint(300000, 2**63),
+    wire.f_len(4003, b""),
+    wire.f_len(2047, b"\xff" * 3),
+]
 
 RULES = {
     "C10.S1": "successive load(SIZE_DELIMITED) calls return the written sequence, each consuming exactly its "
@@ -109,7 +118,7 @@ class _Run:
             fr.cls = cls
             fr.relayed = False
             msg = gen.message(cls)
-            wkind = tape.weighted([5, 2, 2], "writer")    # 0 betterproto, 1 reference, 2 betterproto relaying via older schema
+            wkind = tape.weighted([5, 2, 2, 1], "writer")  # 0 betterproto, 1 reference, 2 relay via older schema, 3 foreign
             wcls = cls
             if wkind == 2:
                 names = [fi.name for fi in class_info(cls).fields]
@@ -126,7 +135,7 @@ class _Run:
                     wkind = 0
             fr.writer_cls = wcls
             fr.msg = msg
-            fr.writer = ("bp", "ref", "bp-relay")[wkind]
+            fr.writer = ("bp", "ref", "bp-relay", "foreign")[wkind]
             try:
                 payload = bytes(msg)
             except Exception as e:  # noqa: BLE001
@@ -135,10 +144,21 @@ class _Run:
             fr.start = len(f.data)
             # ENOSPC / crash only ever hits the last frame (a torn tail; nobody appends after it)
             fail_call = None
-            if k == n_frames - 1 and wkind != 1 and tape.draw(8, "enospc?") == 7:
+            if k == n_frames - 1 and wkind in (0, 2) and tape.draw(8, "enospc?") == 7:
                 fail_call = tape.draw(4, "enospc-call")
                 enospc_frame = k
-            if wkind == 1:
+            if wkind == 3:
+                # a foreign (e.g. proto2 / newer-schema) writer: the same payload plus occurrences no schema
+                # here knows - a group, fixed-width fields, field numbers with 2- and 3-byte tags
+                extra = b""
+                for _ in range(1 + tape.draw(3, "foreign-n")):
+                    extra += tape.choice(FOREIGN_UNKNOWN, "foreign-occ")
+                payload = payload + extra if tape.draw(2, "foreign-front") == 0 else extra + payload
+                fr.payload = payload
+                f.writer().write(wire.enc_varint(len(payload)) + payload)
+                chunk = bytes(f.data[fr.start:])
+                stats["probe:foreign-writer-frame-with-group-or-odd-unknowns"] += 1
+            elif wkind == 1:
                 pb = ref.pb_class(cls).FromString(payload)
                 buf = io.BytesIO()
                 gproto.serialize_length_prefixed(pb, buf)
@@ -182,7 +202,9 @@ class _Run:
             # ---- S2: framing, judged without the code under test
             if not torn:
                 want = wire.enc_varint(len(payload)) + payload
-                if wkind != 1:
+                if wkind == 3:
+                    pass
+                elif wkind != 1:
                     if chunk != want:
                         raise Violation("C10.S2", "bad-framing",
                                         f"frame {k} ({cls.__name__} {short(msg)}): dump wrote prefix+payload "
@@ -244,6 +266,18 @@ class _Run:
             if r.tell() != fr.end:
                 raise Violation("C10.S1", "consumed-wrong-span",
                                 f"frame {k} occupies [{fr.start},{fr.end}) but load left the stream at {r.tell()}")
+            # a relay: what was loaded is written again - same framing rule, unknown fields included
+            try:
+                out = io.BytesIO()
+                got.dump(out, SD)
+                gb = bytes(got)
+            except Exception as e:  # noqa: BLE001
+                raise Violation("C10.S2", f"relay-dump-raised-{type(e).__name__}", f"frame {k}: {e}")
+            if out.getvalue() != wire.enc_varint(len(gb)) + gb:
+                raise Violation("C10.S2", "bad-framing",
+                                f"frame {k} ({fr.cls.__name__} as {fr.reader_cls.__name__}) loaded and dumped again: wrote "
+                                f"{out.getvalue()[:24].hex()}.. but varint(len(bytes(m)))||bytes(m) is "
+                                f"{(wire.enc_varint(len(gb)) + gb)[:24].hex()}..")
             if fr.reader_cls is fr.cls and fr.writer == "bp":
                 if got != fr.msg:
                     raise Violation("C10.S1", "not-equal-to-written", f"frame {k}: {short(got)} != {short(fr.msg)}")
@@ -419,8 +453,9 @@ class StreamSim(Simulator):
     rules = RULES
     generation_rule = ("Each history draws 1-6 frames of mixed message types and boundary-biased values (static "
                        "domain, see valgen), each written by betterproto dump(SIZE_DELIMITED), by a betterproto relay "
-                       "that parsed the message with an older schema (carries unknown fields), or by the reference "
-                       "serialize_length_prefixed; reader schema per type is the writer's or an older one. Fault "
+                       "that parsed the message with an older schema (carries unknown fields), by the reference "
+                       "serialize_length_prefixed, or by a foreign writer that adds groups and odd unknown fields; every loaded "
+                       "message is also dumped again (relay); reader schema per type is the writer's or an older one. Fault "
                        "space per history: EVERY cut point 0..len for streams <= 96 bytes (else all frame, prefix and "
                        "write-call boundaries +-2 and 32 drawn points), a tailing reader against a tape-driven "
                        "frontier with EIO on the k-th read, writer crash, ENOSPC on the k-th write (torn tail).")
